@@ -25,7 +25,25 @@ RULE = ("tie P (program capture): for every (helper, graph-or-grid, is_active fo
         "h*w <= 12, thorough 16), and the grid form is compared with the explicit-graph "
         "form on the same grid; constant (Python bool) patterns are evaluated directly; the Coq specifications "
         "(independent_b, connected_b, spec_diag_b) are validated against the same oracle; z3 rank models are re-checked "
-        "by the Coq certificate checker cert_diag and the Coq rank construction diag_rank is replayed on the real program.")
+        "by the Coq certificate checker cert_diag and the Coq rank construction diag_rank is replayed on the real program.  "
+        "Hardening (HARDEN_BRIEF classes 1-6): tie -- arrays built from one-shot iterables (generator, map, iter, rows "
+        "of generators), every call also by keyword (graph=, all keywords, explicit graph=None), a second identical call "
+        "on the same Solver / is_active / Graph (the model continues from the state of the first), Graph objects already "
+        "used by an earlier call and extended afterwards, is_active and graph compared before/after the call "
+        "(arguments-unchanged), boards and paths with > 256 cells / vertices / rank bounds built from run-time ints "
+        "(3x180, 23x23, 1x300, 300-vertex path with reversed edges and a loop); search -- the same call forms and "
+        "histories (plus ~v arrays, lists with Python bools, a generator as is_active: rejecting it with TypeError is "
+        "accepted, any other outcome must equal the list form) on a sample of the graphs and grids in scope; every "
+        "small multigraph with all edges stored (larger, smaller) or mixed and shuffled, cycles closed by a reversed "
+        "edge, loops inside cycles, structured graphs with 5-10 vertices (K5-K7, wheels, prisms, paths, cycles, two "
+        "cycles, K33, K34, Petersen, binary tree) as-is / reversed / mixed / with a parallel reversed edge / with a "
+        "loop; targeted patterns on boards 4x5, 5x4, 5x5, 6x6, 7x7, 3x7, 7x3, 2x8 (grid form vs explicit-graph form "
+        "vs oracle; on 36+ cells the explicit-graph form is decided by z3 under a timeout for a few patterns per family, "
+        "'unknown' counted as inconclusive) and 8x8, 9x9, 7x10, 11x11 (grid form vs oracle): X shapes, stars with "
+        "3-4 diagonal arms of 1-2 cells, longest induced diagonal chains hanging from the border / free / joining two "
+        "border cells (depth-first search, harness/c08pat.py) with prefixes and mirrored copies, zig-zags, staircases, "
+        "closed and opened rings, checkerboards, random diagonal-rich patterns; accepted patterns there are re-checked "
+        "by cert_diag and diag_rank as above.")
 TRUSTED = [
     "reading of the property: 'not adjacent' = no edge of the graph has two active endpoints (a self-loop on an "
     "active vertex counts); 'not segmenting' = the inactive vertices induce a connected subgraph (vacuous when "
